@@ -96,7 +96,7 @@ CHECKS["C06"] = {
             "types - every source value up to 16 bits (32 bits in the thorough tier), boundary vectors, dense windows "
             "at type limits and seeded random values beyond - directly and through every crossing (stores, loads, "
             "arrays, invoke arguments/results, callback results) under two foreign ABIs; runs of equal outcome are "
-            "judged by TLC with exact wide arithmetic.",
+            "judged by TLC with exact wide arithmetic. Operands that are themselves read from sandbox memory are covered by the single-fetch runs: the operand cell is rewritten after every read (page protection + single stepping, no hook) and TLC (Fetch.tla) accepts an outcome only if the sequential Contract holds for ONE of the values the cell held.",
     "note": "64-bit sources are not exhaustive. Flag-abort build observes aborts as failed dynamic_checks. Trusted: TLC, "
             "harness/conv_driver.cpp (records outcome classes mechanically), vm backend, g++ 12.",
 }
@@ -110,7 +110,7 @@ CHECKS["C05"] = {
             "base, stride and operand, and that accepted operands are convex; the real operators + - += -= ++ -- [] &[] are "
             "swept on a foreign-ABI sandbox for 11 pointee kinds (guest stride differs from the host's), first/last/interior/"
             "null bases, all operand types plain/tainted/tainted_volatile - 8/16-bit operands exhaustively, wider ones at "
-            "boundary and wrap-prone values - and every run is judged by TLC in exact arithmetic.",
+            "boundary and wrap-prone values - and every run is judged by TLC in exact arithmetic. Operands that are themselves read from sandbox memory are covered by the single-fetch runs: the operand cell is rewritten after every read (page protection + single stepping, no hook) and TLC (Fetch.tla) accepts an outcome only if the sequential Contract holds for ONE of the values the cell held.",
     "note": "32/64-bit operands not exhaustive; strides come from the harness' own tables of the three guest ABIs (wasm32, lp16, lp64u). Trusted: TLC, "
             "harness/ptr_driver.cpp, vm backend, g++ 12.",
 }
@@ -121,7 +121,7 @@ CHECKS["C17"] = {
             "and tainted, are applied to fixed-size arrays of 6 element types and 6-10 lengths living in application "
             "memory and in sandbox memory (guest element size), plus a 2-D shape; TLC judges every run: abort iff the "
             "index is negative or >= length (mathematically, whatever the index type), otherwise exactly element idx "
-            "under the layout of the memory the array lives in.",
+            "under the layout of the memory the array lives in. Operands that are themselves read from sandbox memory are covered by the single-fetch runs: the operand cell is rewritten after every read (page protection + single stepping, no hook) and TLC (Fetch.tla) accepts an outcome only if the sequential Contract holds for ONE of the values the cell held.",
     "note": "Index types wider than 16 bits are not exhaustive. Trusted: TLC, harness/ptr_driver.cpp, g++ 12.",
 }
 
@@ -176,7 +176,7 @@ CHECKS["C03"] = {
             "address-space-wrapping arithmetic, indexing, casts through wider pointees, opaque round trip, reload through "
             "memory, memset return) from null/first/last/interior seeds, allocation incl. a misbehaving allocator, "
             "app_pointer::to_tainted and the checked raw-pointer entry points for every address class are executed and "
-            "every result judged by TLC.",
+            "every result judged by TLC. Operands that are themselves read from sandbox memory are covered by the single-fetch runs: the operand cell is rewritten after every read (page protection + single stepping, no hook) and TLC (Fetch.tla) accepts an outcome only if the sequential Contract holds for ONE of the values the cell held.",
     "note": "Chain depth and operand sets are bounded; function pointers excluded by the property. Trusted: TLC, "
             "harness/mem_driver.cpp, vm backend, g++ 12.",
 }
@@ -192,7 +192,7 @@ CHECKS["C10"] = {
             "up to 2^64-1, with plain and tainted size operands; every run records the outcome, the interval of region bytes "
             "that changed, red zones of application buffers and whether the effect is exact; TLC checks that an operation "
             "proceeds only if every range is wholly legal, touches only its destination range, and that every satisfiable "
-            "non-empty request is carried out.",
+            "non-empty request is carried out. Operands that are themselves read from sandbox memory are covered by the single-fetch runs: the operand cell is rewritten after every read (page protection + single stepping, no hook) and TLC (Fetch.tla) accepts an outcome only if the sequential Contract holds for ONE of the values the cell held.",
     "note": "Exact same-sandbox backend variant (mask-based plugins may refuse more). Extent grid is sampled in the quick tier "
             "(every 61st + boundaries), complete 0..4098 in the thorough tier. D17 (strlen overrun) is an open known "
             "finding. Trusted: TLC, harness/bulk_driver.cpp, vm backend, g++ 12.",
@@ -222,7 +222,7 @@ CHECKS["C09"] = {
             "range-checked length; every schedule (tens of thousands) is replayed on the real code - the installed hook "
             "performs exactly the scripted writes at the scripted points on real sandbox memory - for string (unique_ptr "
             "and std::string verifiers), range (short, long), array, struct and copy_memory_or_deny_access, and TLC judges "
-            "the address class, content, and post-overwrite content of the object the verifier received.",
+            "the address class, content, and post-overwrite content of the object the verifier received. Operands that are themselves read from sandbox memory are covered by the single-fetch runs: the operand cell is rewritten after every read (page protection + single stepping, no hook) and TLC (Fetch.tla) accepts an outcome only if the sequential Contract holds for ONE of the values the cell held.",
     "note": "Interleavings are controlled only at the hook points between RLBox's own reads. Needs the verif-hook commit "
             "(guard ALLENABY_RLBOX_VERIF). Trusted: TLC, harness/c09_driver.cpp, vm backend, g++ 12.",
 }
